@@ -96,7 +96,7 @@ def expanded_samplespace(d, alphabets=None, union=True):
     if alphabets is None:
         # Note, we sort the alphabets now, so we are possibly changing the
         # order of the original sample space.
-        alphabets = list(map(sorted, d.alphabet))
+        alphabets = list(map(sorted, d.alphabet)) if joint else sorted(d.alphabet)
     elif joint and len(alphabets) != d.outcome_length():
         L = len(alphabets)
         raise Exception("You need to provide {0} alphabets".format(L))
